@@ -194,23 +194,20 @@ macro_rules! vnote {
     }};
 }
 
-/// Declares the harness list of one file: Kani proof wrappers + native dispatch table.
-/// `name` is the generic body `fn name<S: Src>(s: &mut S)`; attributes are passed to Kani.
+/// Declares the harness list of one file: `harnesses! { k, "sel_<file>.rs"; #[attrs] name; ... }`.
+/// `name` is the generic body `fn name<S: Src>(s: &mut S)`.
+///  * natively the list becomes the replay dispatch table;
+///  * under Kani the `#[kani::proof]` wrappers are NOT expanded from the list (Kani compiles every proof harness it sees,
+///    about a second each, and some files list a thousand instances): the driver writes the wrappers of the harnesses
+///    selected for this run, with the attributes given here, to `$L21V_GEN_DIR/sel_<file>.rs`, which is included instead.
 #[allow(unused_macros)]
 macro_rules! harnesses {
-    ($modname:ident; $( $(#[$m:meta])* $name:ident ;)*) => {
+    ($modname:ident, $sel:literal; $( $(#[$m:meta])* $name:ident ;)*) => {
         #[cfg(kani)]
         pub mod $modname {
             #[allow(unused_imports)]
             use super::*;
-            $(
-                #[kani::proof]
-                $(#[$m])*
-                pub fn $name() {
-                    let mut s = KaniSrc;
-                    super::$name(&mut s);
-                }
-            )*
+            include!(concat!(env!("L21V_GEN_DIR"), "/", $sel));
         }
         #[cfg(not(kani))]
         pub mod $modname {
